@@ -267,6 +267,22 @@ def category_sweep(ctx, db):
             why = same(a, b)
             if why:
                 ctx.violation("category-default:%s-differs-from-default-value-and-unit" % name, dict(case, bare=repr(a)[:120], explicit=repr(b)[:120], why=why), replay=case)
+            # a caller that fills in the container of the object it was given (a point built from its category, then its
+            # coordinates written into it) has changed that object - not what the next bare-category object is built with
+            if name in ("Array", "FixedArray") and idx % 5 == 0:
+                ctx.ev()
+                try:
+                    vals = a.GetValues()
+                    if isinstance(vals, list):
+                        if vals:
+                            vals[0] = 1.5
+                        vals.append(7.0)
+                    a2, b2 = f1(), f2()
+                    why = same(a2, b2)
+                    if why:
+                        ctx.violation("category-default:%s-built-after-a-caller-filled-in-an-earlier-one-differs" % name, dict(case, bare=repr(a2)[:120], explicit=repr(b2)[:120], why=why), replay=case)
+                except Exception as e:
+                    ctx.violation("category-default:%s-raised-after-a-caller-filled-in-an-earlier-one:%s" % (name, type(e).__name__), dict(case, error=str(e)[:160]), replay=case)
 
 
 def registered_later(ctx):
@@ -275,7 +291,8 @@ def registered_later(ctx):
     re-registered; every unit has a default category *now*, so every form must build, and build equal objects."""
     from barril.units import Scalar, UnitDatabase
 
-    for order in ("questions before the categories", "categories first", "a category registered again", "the same definitions registered again", "a symbol used as a legacy spelling, then registered as a unit"):
+    for order in ("questions before the categories", "categories first", "a category registered again", "the same definitions registered again", "a symbol used as a legacy spelling, then registered as a unit",
+                  "questions between the categories"):  # fmt: skip
         db = UnitDatabase()
         with table.pushed(db):
             db.AddUnitBase("length", "metre", "m")
@@ -302,6 +319,17 @@ def registered_later(ctx):
                         pass  # no category yet: a refusal is what is due
             db.AddCategory("length", "length")
             db.AddCategory("time", "time")
+            if order == "questions between the categories":
+                # the categories named after the quantity types exist, the one the unit 'min' names as its own does not yet
+                from barril.units import Array as _Ar, FractionScalar as _Fs, ObtainQuantity as _Oq
+
+                for ask in (lambda: db.GetDefaultCategory("min"), lambda: Scalar(1.0, "min"), lambda: _Oq("min"), lambda: _Ar([1.0], "min"), lambda: _Fs(1.5, "min"), lambda: Scalar((1.0, "min")), lambda: _Oq("min", None, "cap")):
+                    ctx.ev()
+                    try:
+                        ask()
+                        ctx.count("hand-built: questions about a unit whose own category is not registered yet that were answered")
+                    except Exception:
+                        ctx.count("hand-built: questions about a unit whose own category is not registered yet that were refused")
             db.AddCategory("duration", "time", valid_units=["min", "s"], default_unit="min")
             db.AddCategory("dynamic viscosity", "dynamic viscosity")
             if "volume" in db.quantity_types:
